@@ -4,7 +4,7 @@
    pending_real2 = OpDuplicate, OpLoad (see Tree/InvProofsOp2Full.v for Core over OpLoad). *)
 From Coq Require Import PeanoNat Arith Permutation Lia.
 From AV Require Import Base.Bytes Base.Outcome Hash.HashModel Tree.Heap Tree.Ops Tree.Script Tree.Inv
-  Tree.InvProofsBase Tree.InvProofsCore Tree.InvProofsTree Tree.InvProofsPrim Tree.InvProofsData Tree.InvProofs
+  Tree.InvProofsBase Tree.InvProofsCore Tree.InvProofsTree Tree.InvProofsPrim Tree.InvProofsData Tree.InvProofsNav Tree.InvProofs
   Tree.InvProofsFrame Tree.InvProofsChars Tree.InvProofsChars5 Tree.InvProofsOrigins Tree.InvProofsOrigins3
   Tree.InvProofsReal Tree.InvProofsDetFiles Tree.InvProofsDetFilesMain Tree.InvProofsOp2.
 From AV Require Import Tree.Sort Tree.SortProofsHeap Tree.SortProofsOrder Tree.SortProofsMain Tree.Copy Tree.Compat
@@ -116,16 +116,146 @@ Proof.
     destruct (ser_heap _ _ _ _ _ _ _ _ _ _ _) in H; try discriminate. injection H as _ <-. apply lift_nodes_eq; auto.
 Qed.
 
-(* only failed re-parenting (Op1 move / copy) breaks the invariant *)
+(* ---------- OpDuplicate: a successful duplicate is a sequence of steps that keep RealInv ---------- *)
+Definition ROK {A} (m : W A) : Prop := forall w a w', RealInv T w -> m w = Val (OK a, w') -> RealInv T w'.
+
+Lemma ROK_ro {A} (m : W A) : ro m -> ROK m.
+Proof. intros H w a w' I E. apply H in E. subst. exact I. Qed.
+Lemma ROK_bind {A B} (m : W A) (k : A -> W B) : ROK m -> (forall a, ROK (k a)) -> ROK (wbind m k).
+Proof.
+  intros Hm Hk w b w' I H. apply wbind_inv in H as [(a & w1 & H1 & H2) | (e & H1 & [=])].
+  eapply Hk; [|exact H2]. eapply Hm; eauto.
+Qed.
+Lemma ROK_op1 (RC : RefChars T) {A} (m : W A) (g : A -> value) (o1 : op) :
+  (forall w, run_op T tab_el tab_en check_fn LATEST root_attrs o1 w = (do a <- m; wret (g a))%W w) ->
+  (forall w, Known_failed_reparent T tab_el tab_en check_fn LATEST root_attrs w o1 = true ->
+             exists e w', m w = Val (ER e, w')) ->
+  ROK m.
+Proof.
+  intros Hrun HK w a w' I E.
+  eapply (RealInv_step T tab_el tab_en check_fn LATEST root_attrs o1 w (OK (g a)) w'); auto.
+  - destruct (Known_failed_reparent T tab_el tab_en check_fn LATEST root_attrs w o1) eqn:EK; auto.
+    destruct (HK _ EK) as (e & w0 & E0). congruence.
+  - unfold Inv.run. rewrite Hrun. unfold wbind. rewrite E. reflexivity.
+Qed.
+Lemma ROK_lift {A} (m : W A) : (forall w r w', m w = Val (r, w') -> lift T w w') -> ROK m.
+Proof. intros H w a w' I E. eapply lift_RealInv; [eapply H; eauto|exact I]. Qed.
+
+Lemma lift_modify_keep i f :
+  (forall n, n_parent (f n) = n_parent n /\ n_type (f n) = n_type n /\ n_files (f n) = n_files n /\ n_content (f n) = n_content n) ->
+  forall w r w', modify_node i f w = Val (r, w') -> lift T w w'.
+Proof.
+  intros Hf w r w' H. apply modify_node_wset in H as (n & Hn & _ & ->). destruct (Hf n) as (Hp & Ht & Hfl & Hc).
+  constructor.
+  - eapply frame_wset; [apply cNR_refl|exact Hn|]. split; auto. intros _ Hk. unfold kids in *. rewrite Hc. auto.
+  - apply osub_models. reflexivity.
+  - eapply frame_wset; [apply pfNR_refl|exact Hn|]. split; auto.
+  - apply ptree_same_tree. eapply st_wset; eauto. unfold kids. rewrite Hc. reflexivity.
+Qed.
+
+(* set_files on one node: everything RealInv looks at is kept *)
+Lemma ROK_set_files i g : ROK (modify_node i (fun x => set_files x (g x))).
+Proof.
+  intros w a w' ((C & O) & CL & OR) H. apply modify_node_wset in H as (n & Hn & _ & ->).
+  assert (S : same_tree w (wset w i (set_files n (g n)))) by (eapply st_wset; eauto; reflexivity).
+  assert (F : frame (cNR T) (cNN T) w (wset w i (set_files n (g n)))).
+  { eapply frame_wset; [apply cNR_refl|exact Hn|]. split; auto. }
+  split; [split; [eapply Core_same_tree; eauto|eapply NoOrphan_same_tree; eauto]|split].
+  - eapply CharsLeaf_frame; eauto.
+  - eapply OriginsRef_orel; [exact F|apply orel_osub; apply osub_models; reflexivity|exact OR].
+Qed.
+
+Section Dup.
+Hypothesis RC : RefChars T.
+
+Lemma ROK_new_model : ROK (new_model T root_attrs).
+Proof.
+  apply (ROK_op1 RC _ VModel OpNewModel); [reflexivity|]. intros w HK. discriminate HK.
+Qed.
+Lemma ROK_create_file c name version : ROK (m_create_file T c name version).
+Proof.
+  apply (ROK_op1 RC _ VFile (OpCreateFile c name version)); [reflexivity|]. intros w HK. discriminate HK.
+Qed.
+Lemma ROK_copy h other : ROK (e_create_copied_sub_element T LATEST h other).
+Proof.
+  apply (ROK_op1 RC _ VElem (OpCopy h other)); [reflexivity|]. intros w HK.
+  unfold Known_failed_reparent, Inv.run in HK. cbn [run_op] in HK. unfold welem in HK.
+  destruct (e_create_copied_sub_element T LATEST h other w) as [[[a|e] w1]| |] eqn:E;
+    unfold wbind in HK; rewrite E in HK; try discriminate HK. eauto.
+Qed.
+
+Lemma ROK_dup_files c : forall files fm, ROK (dup_files T c files fm).
+Proof.
+  induction files as [|f rest IH]; intros fm; cbn [dup_files]; [apply ROK_ro; ro_tac|].
+  apply ROK_bind; [apply ROK_ro; ro_tac|]. intros fl.
+  apply ROK_bind; [apply ROK_create_file|]. intros nf.
+  apply ROK_bind; [apply ROK_ro; ro_tac|]. intros nfl.
+  apply ROK_bind; [|intros _; apply IH].
+  apply ROK_lift. intros w r w' H. unfold set_file in H. injection H as _ <-. apply lift_nodes_eq; auto.
+Qed.
+Lemma ROK_dup_children croot : forall items, ROK (dup_children T LATEST croot items).
+Proof.
+  induction items as [|[e|d] rest IH]; cbn [dup_children]; [apply ROK_ro; ro_tac | | exact IH].
+  apply ROK_bind; [apply ROK_copy | intros; exact IH].
+Qed.
+Lemma ROK_dup_membership fm : forall oids cids, ROK (dup_membership fm oids cids).
+Proof.
+  induction oids as [|o orest IH]; intros cids; cbn [dup_membership]; [apply ROK_ro; ro_tac|].
+  destruct cids as [|c crest]; [apply ROK_ro; ro_tac|].
+  apply ROK_bind; [apply ROK_ro; ro_tac|]. intros on.
+  apply ROK_bind; [apply ROK_ro; ro_tac|]. intros wq.
+  apply ROK_bind; [apply (ROK_set_files c (fun _ => translate_files wq fm (n_files on)))|]. intros _. apply IH.
+Qed.
+
+Lemma ROK_duplicate_body m : ROK (m_duplicate_body T LATEST root_attrs m).
+Proof.
+  unfold m_duplicate_body.
+  apply ROK_bind; [apply ROK_ro; ro_tac|]. intros x.
+  apply ROK_bind; [apply ROK_new_model|]. intros c.
+  apply ROK_bind; [apply ROK_ro; ro_tac|]. intros rn.
+  apply ROK_bind; [apply ROK_ro; ro_tac|]. intros cx.
+  apply ROK_bind; [apply ROK_lift; apply lift_modify_keep; intros n; repeat split|]. intros _.
+  apply ROK_bind; [apply ROK_dup_files|]. intros fm.
+  apply ROK_bind; [apply ROK_dup_children|]. intros _.
+  apply ROK_bind; [apply ROK_ro; ro_tac|]. intros wq.
+  apply ROK_bind; [apply ROK_ro; ro_tac|]. intros oids.
+  apply ROK_bind; [apply ROK_ro; ro_tac|]. intros cids.
+  apply ROK_bind; [apply ROK_dup_membership|]. intros _. apply ROK_ro. ro_tac.
+Qed.
+
+(* AutosarModel::duplicate that returns Ok keeps RealInv; a failing one drops the half-built copy (its nodes stay
+   allocated with the parent link of a model that no longer exists): class Known_dup_failed *)
+Theorem RealInv_duplicate_ok m w c w' :
+  RealInv T w -> m_duplicate T tab_el tab_en check_fn LATEST root_attrs m w = Val (OK c, w') -> RealInv T w'.
+Proof.
+  intros I H. unfold m_duplicate in H.
+  destruct (m_duplicate_body T LATEST root_attrs m w) as [[[c0|e] w1]| |] eqn:E; try discriminate H.
+  injection H as _ <-. eapply ROK_duplicate_body; eauto.
+Qed.
+End Dup.
+
+(* the classes on which RealInv can break: failed re-parenting (Op1 move / copy), a duplicate that fails half-way *)
 Definition Known_failed_reparent2 (w : world) (o : op2) : bool :=
   match o with Op1 o1 => Known_failed_reparent T tab_el tab_en check_fn LATEST root_attrs w o1 | _ => false end.
+Definition Known_dup_failed (w : world) (o : op2) : bool :=
+  match o with
+  | OpDuplicate _ => match run2 o w with Val (ER _, _) => true | _ => false end
+  | _ => false
+  end.
+Definition Known_real2 (w : world) (o : op2) : bool := Known_failed_reparent2 w o || Known_dup_failed w o.
 
+(* PARTIAL: pending_op2 = OpLoad *)
 Theorem RealInv_step2_partial o w r w' :
-  RefChars T -> RealInv T w -> pending_real2 o = false -> Known_failed_reparent2 w o = false ->
+  RefChars T -> RealInv T w -> pending_op2 o = false -> Known_real2 w o = false ->
   run2 o w = Val (r, w') -> RealInv T w'.
 Proof.
-  intros RC I Hp HK H. destruct o as [o1| | | | | | | |]; try (eapply lift_RealInv; [eapply lift_step2; eauto; intros o1; discriminate|exact I]).
-  cbn [run_op2] in H. apply wmap_inv in H as (r0 & H & _). eapply RealInv_step; eauto.
+  intros RC I Hp HK H. apply orb_false_iff in HK as (HK1 & HK2).
+  destruct o as [o1| | |m0| | | | |]; try discriminate Hp;
+    try (eapply lift_RealInv; [eapply lift_step2; eauto; [reflexivity|intros o1; discriminate]|exact I]).
+  - cbn [run_op2] in H. apply wmap_inv in H as (r0 & H & _). eapply RealInv_step; eauto.
+  - unfold Known_dup_failed in HK2. rewrite H in HK2. cbn [run_op2] in H.
+    apply wmap_inv in H as (r0 & H & ->). destruct r0 as [c|e]; [|discriminate HK2].
+    eapply RealInv_duplicate_ok; eauto.
 Qed.
 
 Theorem DF_step2_partial o w r w' :
@@ -139,7 +269,7 @@ Qed.
 Fixpoint clean_real_ops2 (l : list op2) (w : world) : bool :=
   match l with
   | [] => true
-  | o :: r => negb (pending_real2 o) && negb (Known_failed_reparent2 w o) &&
+  | o :: r => negb (pending_op2 o) && negb (Known_real2 w o) &&
               match run2 o w with Val (_, w') => clean_real_ops2 r w' | _ => true end
   end.
 
